@@ -6169,6 +6169,17 @@ class CodegenCtx:
                 else:
                     result += self._generate_end_fail()
                 return result.value()
+            elif not unconditional_end_transition.is_fallthrough:
+                # one of the actions may have sent us somewhere else (a break out of a loop): we're done iff we now rest on an accepting state
+                candidates = [unconditional_end_transition.target]
+                for action in unconditional_end_transition.actions:
+                    for sub in action.all_subactions():
+                        candidates.extend(sub.get_target_override_targets())
+                accepting = [x for x in dict.fromkeys(candidates) if x in self.dfa.accepting_states and x in self.dfa.states]
+                if accepting:
+                    result.add("if (" + " || ".join(f"state->state == {self.dfa.states.index(x)}" for x in accepting) + f") return {self.program_name.upper()}_DONE;")
+                result += self._generate_end_fail()
+                return result.value()
 
         if state in self.dfa.accepting_states:
             result.add(f"return {self.program_name.upper()}_DONE;")
